@@ -107,6 +107,25 @@ def scenarios(rng, tier, runner):
             ls += ["ss.list %d" % k, "ss.vals %d" % k]
         ls += ["ds.invalid", "ds.encode 1", "ds.decodelast 1 0 0"] + [x for k in range(3) for x in ("dd.list %d" % k, "dd.vals %d" % k)]
         out.append(Scenario("wide-%d" % w, ls, {"tables": "cur", "ed": 4, "template": t, "nsub": 3}))
+    # wide associated fields: columns of 32..64-bit fields whose values sit at the ends of the range
+    # (the increments of a 64-bit column spanning the whole range do not fit NBINC's 6 bits)
+    for i in range(30 if tier == "quick" else 400):
+        aw = rng.choice([64, 64, 64, 63, 33, 32])
+        t = [204000 + aw, 31021, rng.choice([12101, 10004, 20003]), 1015, 204000, 12101]
+        nsub = rng.choice([2, 3, 4])
+        top = (1 << aw) - 1
+        pool = [0, 1, top, top - 1, 1 << (aw - 1), (1 << (aw - 1)) - 1, (1 << (aw - 1)) + 1, rng.randrange(0, top + 1), rng.randrange(0, top + 1)]
+        same = rng.random() < 0.2
+        ls = ["T.use cur", "tm.new %d %s" % (rng.choice([3, 4]), " ".join("%06d" % d for d in t))]
+        for k in range(nsub):
+            ls += ["ss.new", "ss.fill %d %d 1" % (k, rng.randrange(1, 10 ** 6))]
+        v0 = rng.choice(pool)
+        for k in range(nsub):
+            ls.append("ss.setraw %d 2 %d %d" % (k, rng.choice([0, 5, 1000]), v0 if same else rng.choice(pool)))
+        for k in range(nsub):
+            ls += ["ss.list %d" % k, "ss.vals %d" % k]
+        ls += ["ds.invalid", "ds.encode 1", "ds.decodelast 1 0 0"] + [x for k in range(nsub) for x in ("dd.list %d" % k, "dd.vals %d" % k)]
+        out.append(Scenario("afwide-%d" % i, ls, {"tables": "cur", "ed": 4, "template": t, "nsub": nsub}))
     return out
 
 two_pass = c01.two_pass
